@@ -30,9 +30,38 @@ EX = "pynguin.testcase.export"
 MODULE_NAME = "pkg.mod"
 
 
+# a position where a Name is not a variable reference -> the hooks (any one of them) with which a visitor exempts it
+NON_REFERENCE_HOOKS = {
+    "the keyword of a call argument (`f(size=x)`)": ("visit_Arg", "leave_Arg"),
+    "the attribute name in `obj.size`": ("visit_Attribute", "leave_Attribute"),
+}
+
+
+def _name_positions(ctx, repo) -> None:
+    """Sibling visitors of the deserializer that treat every Name as a variable reference must agree on the
+    positions where a Name is not a reference (cross-check of implementations walking the same trees)."""
+    mod = repo.module(DES)
+    visitors = {}
+    for cname, cdef in mod.classes.items():
+        own = {f.name for f in cdef.body if isinstance(f, ast.FunctionDef)}
+        if own & {"visit_Name", "leave_Name"} and any("cst.CST" in norm(b) for b in cdef.bases):
+            visitors[cname] = (cdef, own)
+    if len(visitors) < 2:
+        raise AnalysisError("deserializer: fewer than two Name-visiting CST visitors found")
+    for why, hooks in NON_REFERENCE_HOOKS.items():
+        having = sorted(c for c, (_d, own) in visitors.items() if own & set(hooks))
+        if not having:
+            raise AnalysisError(f"no visitor of the deserializer defines one of {hooks}: the sibling rule has no reference implementation")
+        for cname, (cdef, own) in sorted(visitors.items()):
+            ctx.analysed(cdef)
+            ctx.check("C24.name-positions", cdef, bool(own & set(hooks)), f"{cname} handles every Name it meets but, unlike {having}, defines none of {list(hooks)}: {why} is not a variable reference, yet it is rewritten / collected like one - `mod_.resize(var_0, size=var_1)` is read back as `mod_.resize(var_0, mod_.size=var_1)` when the module under test also exports `size`, `obj.size` as `obj.int_0` when a variable is called size", what=f"{cname}: exempts {why}", stmt=f"[{cname}] {hooks[0]}")
+
+
 def check(ctx) -> None:
     repo = ctx.repo
     ctx.rule("C24.roundtrip", "ABSINT: parse_assertion(assertion_to_cst(a)) renders to the same text as a, for one representative per assertion shape the exporter emits", floor=8)
+    ctx.rule("C24.name-positions", "sibling agreement: every CST visitor of the deserializer that treats Names as references exempts the keyword of call arguments and the attribute name of attribute accesses, as its siblings do", floor=6)
+    _name_positions(ctx, repo)
     ctx.rule("C24.functions", "the seed parser's per-function filter is `FunctionDef` + name prefix only; the exporter's function names satisfy the prefix", floor=3)
     ctx.rule("C24.imports", "normalize_sut_references handles the exporter's import idiom (import, from-import, alias = sys.modules[...])", floor=3)
 
